@@ -125,6 +125,8 @@ def generate(rs: int, tier: str, index: int) -> dict:
         else:
             desc = ops.gen_op(c.sub("op"))
         desc = _retype(c.sub("retype"), desc)
+        if c.sub("alias").chance(0.08):
+            desc = dict(desc, alias=True)
         step: Dict[str, Any] = {"id": i, "op": desc}
         if cls == "natural":
             step["op"] = _spoil(c.sub("spoil"), desc)
